@@ -194,6 +194,7 @@ func (_this *BuilderEventReceiver) OnArrayBegin(arrayType events.ArrayType) {
 		elementCount := common.ByteCountToElementCount(arrayType.ElementSize(), uint64(len(bytes)))
 		_this.OnArray(arrayType, elementCount, bytes)
 	})
+	_this.context.arrayElementBitWidth = arrayType.ElementSize()
 }
 func (_this *BuilderEventReceiver) OnMediaBegin(mediaType string) {
 	_this.context.BeginArray(func(ctx *Context) {
